@@ -322,6 +322,18 @@ pub fn gen_cases(seed: u64, n: usize, max_len: i32, max_depth: usize, start_id: 
                 let mode = if rng.gen_bool(0.5) { "func_entry" } else { "func_exit" };
                 let api = if rng.gen_bool(0.5) { "iter" } else { "mod" };
                 plan.push(json!({"p":p,"site":-1,"mode":mode,"api":api,"code":[{"o":"probe","p":p}],"acc":true}));
+                // sometimes the same modifier goes on with inject_at calls before the function-level mode is finished
+                if api == "mod" && rng.gen_range(0..3) == 0 {
+                    for _ in 0..rng.gen_range(1..3) {
+                        let s = rng.gen_range(0..body.len());
+                        if body[s]["o"] == "try" || s + 1 == body.len() {
+                            continue;
+                        }
+                        let m2 = ["before", "after"][rng.gen_range(0..2)];
+                        let p2 = plan.len() as u64;
+                        plan.push(json!({"p":p2,"site":s,"mode":m2,"api":"mod_at_chained","code":[{"o":"probe","p":p2}],"acc":true}));
+                    }
+                }
                 continue;
             }
             let i = rng.gen_range(0..body.len());
